@@ -367,7 +367,11 @@ class InfoRegen(base):
             pjoin(engine.offset, x.lstrip(os.path.sep)) for x in self.locations
         ]
 
-        if engine.phase.startswith("pre_"):
+        if engine.phase == "pre_unmerge" and engine.mode == const.REPLACE_MODE:
+            # a replace regenerates once, in post_unmerge; what its merge half did
+            # to the directories is only visible against the pre_merge snapshot.
+            return
+        elif engine.phase.startswith("pre_"):
             self.saved_mtimes.set_state(locations)
             return
         elif engine.phase == "post_merge" and engine.mode == const.REPLACE_MODE:
